@@ -401,10 +401,12 @@ def insertMinedTx (own : Own) (s : Store) (bals : Bals) (tr : TxRec) (blk : Bloc
     let (s, bals) ← updateMinedBalance (recordMinedTx s tr blk) bals tr blk
     pure (removeDoubleSpends own (unpendMined s tr.tx) tr, bals, false)
 
-/-- the credit value written for a relevant output of a mined tx (valueUnspentCredit) -/
+/-- the credit value written for a relevant output of a mined tx (valueUnspentCredit); a coinbase output
+    matures like any coinbase AND keeps the lock of its own script, whichever is longer -/
 def minedCreditOf (p : Params) (cb : Bool) (rel : Rel) : Credit :=
   { amt := rel.out.amt, spent := false, change := rel.change, cls := uclassOf rel.out.cls,
-    maturity := (if cb then p.cbMaturity else rel.out.cls.maturity) % 2^32, sh := rel.out.addr, spentBy := none }
+    maturity := (if cb then max p.cbMaturity rel.out.cls.maturity else rel.out.cls.maturity) % 2^32,
+    sh := rel.out.addr, spentBy := none }
 
 /-- AddCredits (mined), body of the first loop after the duplicate check: address record, credit,
     unspent entry, amount -/
@@ -592,7 +594,12 @@ def rollbackCbOut (c : Ctx) (id : TxId) (blk : BlockMeta) (acc : (Store × Bals)
       | none => pure ((s, acc.1.2), acc.2 ++ [(id, i)])
       | some (w, _) => do
         let sb ← rollbackOwnedOut id blk (s, acc.1.2) i o w
-        pure (sb, acc.2 ++ [(id, i)])
+        -- the deposit record of a staking / binding coinbase output goes with its credit (a coinbase
+        -- never returns to the pending set, so no unmined record is written)
+        if o.cls.isStaking || o.cls.isBinding then
+          pure (({ sb.1 with game := AMap.erase sb.1.game ⟨w, o.cls.isBinding, false, id, blk.height, i⟩ }, sb.2),
+                acc.2 ++ [(id, i)])
+        else pure (sb, acc.2 ++ [(id, i)])
 
 /-- Rollback, ordinary tx: body of the TxIn loop -/
 def rollbackIn (c : Ctx) (id : TxId) (blk : BlockMeta) (sb : Store × Bals) (cur : Nat) (i : Inp) : M (Store × Bals) :=
